@@ -286,6 +286,112 @@ def run_pair(ctx, rng, with_close):
     return case, reqs, impl, fails, info, outcome, rounds, sorted(pair.codes_seen)
 
 
+def open_path_facts():
+    """From the AST of transport.py: the (window, max packet) expressions handed to chan._set_window — our RECEIVE side —
+    and the ones written into the message that advertises them to the peer, for the acceptor (_parse_channel_open →
+    CHANNEL_OPEN_CONFIRMATION) and the initiator (open_channel → CHANNEL_OPEN)."""
+    import ast
+    import inspect
+    import textwrap
+    from paramiko.transport import Transport
+    out = {}
+    for name, marker in (("_parse_channel_open", "cMSG_CHANNEL_OPEN_SUCCESS"), ("open_channel", "cMSG_CHANNEL_OPEN")):
+        fn = ast.parse(textwrap.dedent(inspect.getsource(getattr(Transport, name)))).body[0]
+        setw, adv, seen = [], [], False
+        for n in ast.walk(fn):
+            if isinstance(n, ast.Call) and isinstance(n.func, ast.Attribute) and n.func.attr == "_set_window":
+                setw = [ast.unparse(a) for a in n.args]
+        calls = sorted((n for n in ast.walk(fn) if isinstance(n, ast.Call) and isinstance(n.func, ast.Attribute)
+                        and n.func.attr in ("add_byte", "add_int", "add_string")), key=lambda n: (n.lineno, n.col_offset))
+        ints = []
+        for n in calls:
+            if n.func.attr == "add_byte":
+                seen = ast.unparse(n.args[0]) == marker
+                ints = []
+            elif seen and n.func.attr == "add_int":
+                ints.append(ast.unparse(n.args[0]))
+                if (name == "_parse_channel_open" and len(ints) == 4) or (name == "open_channel" and len(ints) == 3):
+                    adv = ints[-2:]
+                    seen = False
+        out[name] = (setw, adv)
+    return out
+
+
+def accepted_channels(ctx, rng):
+    """Channels through the real open path with the two ends' window sizes as INDEPENDENT parameters (ratios 1:1,
+    1:32, 32:1, 1:64 …), accepted on both roles and opened by us.  The peer then sends exactly the window we ADVERTISED
+    and our application reads everything: the sender's window is 0, so some WINDOW_ADJUST must have been written
+    (stuck_impossible: a drained open channel has ≥ 90 % of the advertised window back at the sender)."""
+    from pv.props.c23 import Rig as TRig
+    kinds = [("session", True), ("direct-tcpip", True), ("x11", False), ("forwarded-tcpip", False),
+             ("local-open", True), ("local-open", False)]
+    for kind, server_mode in kinds:
+        for ours, ratio in ((65536, 32), (32768, 64), (65536, 1), (2097152, 1), (2097152, 0), (32768, 1)):
+            peer_win = ours * ratio if ratio else ours // 32
+            rig = TRig(server_mode)
+            rig.t.default_window_size = ours
+            adv, sent = {}, []
+            normal = rig._sent
+
+            def record(m, adv=adv, sent=sent, normal=normal):
+                data = m.asbytes()
+                if data[0] == 91:                               # our CHANNEL_OPEN_CONFIRMATION
+                    mm = rig.Message(data[1:])
+                    mm.get_int()
+                    mm.get_int()
+                    adv["window"], adv["max_packet"] = mm.get_int(), mm.get_int()
+                    return
+                if data[0] == 90:                               # our CHANNEL_OPEN
+                    mm = rig.Message(data[1:])
+                    mm.get_text()
+                    mm.get_int()
+                    adv["window"], adv["max_packet"] = mm.get_int(), mm.get_int()
+                if data[0] == lib_chan.MSG_ADJUST:
+                    sent.append(int(lib_chan.decode(m)[1:]))
+                    return
+                if data[0] in (lib_chan.MSG_DATA, lib_chan.MSG_EXT, lib_chan.MSG_EOF, lib_chan.MSG_CLOSE):
+                    return
+                return normal(m)
+
+            rig.t._send_user_message = record
+            rig.t._send_message = record
+            if kind == "local-open":
+                rig.reply_window = peer_win
+                chan = rig.t.open_channel("session", timeout=30)
+            else:
+                rig.t._parse_channel_open(rig.peer_msg(kind, peer_win, 32768, 9))
+                chan = rig.t.server_accepts.pop() if rig.t.server_accepts else None
+            case = {"opened_by": "us" if kind == "local-open" else "peer", "kind": kind, "server_mode": server_mode,
+                    "our_default_window": ours, "peer_window": peer_win, "advertised": dict(adv)}
+            ctx.case(("accepted", kind, server_mode, ours, peer_win), ours != peer_win)
+            ctx.dist("channels-through-the-open-path")
+            if chan is None or "window" not in adv:
+                ctx.fail("open-path-did-not-produce-a-channel", case, repr(adv))
+                continue
+            case["receive_window_configured"] = chan.in_window_size
+            case["adjust_threshold"] = chan.in_window_threshold
+            # the peer uses up the window we advertised; our application reads everything
+            w = adv["window"]
+            left = w
+            chan.settimeout(0.0)
+            while left > 0:
+                n = min(left, 32768)
+                m = rig.Message()
+                m.add_string(b"p" * n)
+                m.rewind()
+                chan._feed(m)
+                left -= n
+                while len(chan.in_buffer) > 0:
+                    chan.recv(1 << 20)
+            chan.closed = True
+            case["window_granted_back"] = sum(sent)
+            if sum(sent) == 0:
+                ctx.fail("sender-stuck-while-reader-reads:accepted-channel-threshold", case,
+                         "the peer sent the %d bytes of window we advertised and our application read all of them, "
+                         "yet no WINDOW_ADJUST was written: receive window configured %d, adjust threshold %d"
+                         % (w, chan.in_window_size, chan.in_window_threshold))
+
+
 def run(ctx):
     import logging
     logging.getLogger("paramiko").addHandler(logging.NullHandler())
@@ -306,8 +412,24 @@ def run(ctx):
     ctx.write_generated("ChanLock", lib_chanlock.lean_tables_for(chmod.Channel))
     ctx.extra["notify_sites"] = ["%s:%s:%s" % (x["caller"], x["kind"], "locked" if x["eff"] else "UNLOCKED")
                                  for x in notifies]
+    facts = open_path_facts()
+
+    def lst(xs):
+        return "[%s]" % ", ".join('"%s"' % x.replace('"', "'") for x in xs)
+
+    ctx.write_generated("C20", (
+        "/- GENERATED from the AST of paramiko/transport.py (_parse_channel_open, open_channel) by pv/props/c20.py — do not edit. -/\n"
+        "namespace PV.Generated.C20\n"
+        "/-- arguments of chan._set_window(…) (our receive side) / the sizes written into the advertising message -/\n"
+        "def acceptorSetWindow : List String := %s\n"
+        "def acceptorAdvertised : List String := %s\n"
+        "def initiatorSetWindow : List String := %s\n"
+        "def initiatorAdvertised : List String := %s\n"
+        "end PV.Generated.C20\n" % (lst(facts["_parse_channel_open"][0]), lst(facts["_parse_channel_open"][1]),
+                                      lst(facts["open_channel"][0]), lst(facts["open_channel"][1]))))
     ctx.build(extra_modules=["PV.Model.ChanDriver"])
     rng = ctx.rng
+    accepted_channels(ctx, rng)
     n = 6000 if ctx.thorough else 1500
     batches = []
     for i in range(n):
@@ -357,6 +479,9 @@ META = {
               "AST of channel.py, is notify_all under the lock), no_lost_wakeup (strict scheduling: an un-notified "
               "sleeper sees a zero window, so with an open window every parked sender is notified), "
               "notified_sleeper_is_enabled, notify_one_strands_second_sender_witness. "
+              "Independent window sizes of the two ends: receive_side_uses_the_advertised_sizes (AST fact: _set_window gets the "
+              "expressions that are advertised, acceptor and initiator), threshold_within_the_advertised_window, with "
+              "accepted and self-opened channels driven through the real open path at ratios 1:1 .. 1:64. "
               "C20_witness: the code before the repair loses discarded bytes for good."),
     "note": ("Liveness is stated as impossibility of the stuck state plus progress of a woken writer; 'eventually' "
              "needs the fairness hypotheses listed under assumptions (reader keeps reading, links deliver, waiter is "
